@@ -8,7 +8,6 @@ import (
 	"errors"
 	"fmt"
 	"net/http"
-	"strings"
 	"testing"
 	"time"
 
@@ -69,7 +68,7 @@ func TestC03(t *testing.T) {
 	run := newRunner(t, "C03")
 	defer run.finish()
 	p := run.p
-	nCases := int64(p.pick(120, 2000))
+	nCases := int64(p.pick(480, 6000))
 	for idx := int64(0); idx < nCases; idx++ {
 		if !p.mine(idx) {
 			continue
@@ -242,7 +241,7 @@ func runC03Batch(run *runner, idx int64, cc *checkCase, env *Env, st *instrStore
 			}
 			var entries []entry
 			if transport == "rest" {
-				code, respBody, pt := httpDo(rr, http.MethodPost, check.BatchRoute, string(body), nil)
+				code, respBody, pt := httpDoCtx(env.Ctx, 5*time.Second, rr, http.MethodPost, check.BatchRoute, string(body), nil)
 				if pt != "" {
 					report("C03:batch-panic:"+topFrames(pt, 2), "REST batch check panicked under a storage fault: "+firstLine(pt), fmt.Sprintf("batch/rest/k%d", k), pt)
 					continue
@@ -262,7 +261,7 @@ func runC03Batch(run *runner, idx int64, cc *checkCase, env *Env, st *instrStore
 				var resp *rts.BatchCheckResponse
 				var err error
 				pt := guard(func() {
-					ctx, cancel := context.WithTimeout(env.Ctx, 20*time.Second)
+					ctx, cancel := context.WithTimeout(env.Ctx, 5*time.Second)
 					defer cancel()
 					resp, err = h.BatchCheck(ctx, &rts.BatchCheckRequest{Tuples: protoTuples})
 				})
@@ -292,11 +291,4 @@ func runC03Batch(run *runner, idx int64, cc *checkCase, env *Env, st *instrStore
 			}
 		}
 	}
-}
-
-func firstLine(s string) string {
-	if i := strings.IndexByte(s, '\n'); i >= 0 {
-		return s[:i]
-	}
-	return s
 }
